@@ -4,3 +4,4 @@ pub mod json;
 pub mod keys;
 pub mod meta;
 pub mod text;
+pub mod world;
